@@ -57,6 +57,78 @@ YAML_STAGE = ('_yaml_load', 'mapping_ctor', 'config_ctor', '_yaml_load_path')
 
 # ------------------------------------------------------------------ fault enumeration
 
+_KEYDICT = None
+
+
+def key_dictionary():
+    """property name -> string constants (const / enum) which the REAL schemas accept for a property of that name
+    SOMEWHERE (references followed by definition name).  A value which is right for `uuid` of the trace type (`auto`)
+    is the most plausible wrong value for `uuid` of a clock type: the single-fault enumeration tries each of them at
+    every node of that name."""
+    global _KEYDICT
+    if _KEYDICT is not None:
+        return _KEYDICT
+    import glob
+    import yaml
+    import bt
+    root = os.path.join(os.path.dirname(bt.barectf.__file__), 'schemas', 'config')
+    defs, docs = {}, []
+    for f in sorted(glob.glob(os.path.join(root, '**', '*.yaml'), recursive=True)):
+        try:
+            with open(f) as fh:
+                d = yaml.safe_load(fh)
+        except Exception:
+            continue
+        docs.append(d)
+        if isinstance(d, dict):
+            for k, v in (d.get('definitions') or {}).items():
+                defs.setdefault(k, []).append(v)
+
+    def strings(n, depth, seen):
+        out = set()
+        if depth > 6:
+            return out
+        if isinstance(n, dict):
+            for k, v in n.items():
+                if k == 'const' and isinstance(v, str):
+                    out.add(v)
+                elif k == 'enum' and isinstance(v, list):
+                    out.update(x for x in v if isinstance(x, str))
+                elif k == '$ref' and isinstance(v, str):
+                    name = v.rsplit('/', 1)[-1]
+                    if name not in seen:
+                        for dv in defs.get(name, []):
+                            out |= strings(dv, depth + 1, seen | {name})
+                elif k in ('properties', 'patternProperties', 'definitions'):
+                    continue        # values of OTHER properties
+                else:
+                    out |= strings(v, depth + 1, seen)
+        elif isinstance(n, list):
+            for x in n:
+                out |= strings(x, depth + 1, seen)
+        return out
+    res = {}
+
+    def walk(n):
+        if isinstance(n, dict):
+            props = n.get('properties')
+            if isinstance(props, dict):
+                for k, v in props.items():
+                    st = strings(v, 0, frozenset())
+                    if st:
+                        res.setdefault(k, set()).update(st)
+            for v in n.values():
+                walk(v)
+        elif isinstance(n, list):
+            for x in n:
+                walk(x)
+    for d in docs:
+        walk(d)
+    _KEYDICT = {k: sorted(v) for k, v in res.items() if len(v) <= 12}
+    return _KEYDICT
+
+
+
 def region_of(file, path):
     s = [str(x) for x in path]
     for key, name in (('$field-type-aliases', 'aliases'), ('type-aliases', 'aliases'), ('$features', 'features'),
@@ -95,6 +167,10 @@ def enumerate_faults(base):
                                                and name not in ('scalarlist', 'onekeymap')):
                     continue
                 add('retype', val, 'retype:' + name)
+            if path and isinstance(path[-1], str) and nk in ('str', 'null', 'bool', 'int', 'float'):
+                for v in key_dictionary().get(path[-1], []):
+                    if v != node:
+                        add('retype', v, 'dict:%s=%s' % (path[-1], v))
             if nk == 'int':
                 for v in RANGE_VALUES:
                     if v != node:
@@ -1213,7 +1289,7 @@ def run(ctx):
         'raw_corruption_cases': sum(1 for t in tasks if t['kind'] == 'raw'),
         'corpus_cases': len(corpus),
         'rule': ('generic walk of every node of every file of the base documents (%s): node kind x fault '
-                 '{delete, retype to 13 values, 5 out-of-range numbers, unknown/self alias or inclusion, duplicated / '
+                 '{delete, retype to 13 values, retype to every string constant the schemas accept for a property of the same name elsewhere, 5 out-of-range numbers, unknown/self alias or inclusion, duplicated / '
                  'spliced sub-tree, 6 non-string keys}; quick tier keeps >= 1 case per (base, fault, node kind, region) '
                  'and fills the CPU budget with a seeded sample; plus seeded 2-4 fault mutants, byte-level corruptions '
                  'of the root file text and a fixed corpus; three entry points; accepted documents are generated and compiled'
